@@ -53,13 +53,26 @@ def main():
     do_seeds = "--seeds" in args or not args
     do_benign = "--benign" in args or not args
     extra = [a for a in args if not a.startswith("--")]
+    if any(a.startswith("--only=") for a in args):
+        do_seeds = do_benign = False
     seeds = sorted(d for d in os.listdir("/verif/seeded") if os.path.isfile(f"/verif/seeded/{d}/patch.diff")) if do_seeds else []
     benign = sorted(d for d in os.listdir("/verif/benign") if os.path.isfile(f"/verif/benign/{d}/patch.diff")) if do_benign else []
     jobs = [f"/verif/seeded/{d}/patch.diff" for d in seeds] + [f"/verif/benign/{d}/patch.diff" for d in benign]
     for d in extra:
         jobs += sorted(os.path.join(d, k, "patch.diff") for k in os.listdir(d) if os.path.isfile(os.path.join(d, k, "patch.diff")))
+    only = [a.split("=", 1)[1].split(",") for a in args if a.startswith("--only=")]
+    if only:
+        # recompute the rows of the named seeds only and merge them into the existing matrix
+        jobs = [f"/verif/seeded/{d}/patch.diff" for d in only[0]]
     with ProcessPoolExecutor(max_workers=16) as ex:
         out = dict(ex.map(run_patch, jobs, chunksize=2))
+    if only:
+        old_mx = json.load(open("/verif/seeded/MATRIX.json"))
+        for d in only[0]:
+            old_mx[d] = out[f"/verif/seeded/{d}/patch.diff"]
+        seeds = sorted(old_mx)
+        out = {f"/verif/seeded/{d}/patch.diff": r for d, r in old_mx.items()}
+        jobs = list(out)
     if seeds:
         mx = {d: out[f"/verif/seeded/{d}/patch.diff"] for d in seeds}
         json.dump(mx, open("/verif/seeded/MATRIX.json", "w"), indent=1, sort_keys=True)
